@@ -12,7 +12,64 @@ import (
 	"verif/mc/core"
 )
 
+// cold start: the FIRST use of the package in this process is made by many goroutines at once
+// (lazily initialised state is only ever unprotected then); references are computed afterwards.
+func coldStart(args []string) int {
+	mode := "mixed"
+	if len(args) > 0 {
+		mode = args[0]
+	}
+	inputs := []string{"widget7", "person", "box", "sheep", "old person", "quiz", "Status", "índice"}
+	type res struct{ in, p, s string }
+	out := make([][]res, 16)
+	var wg sync.WaitGroup
+	start := make(chan struct{})
+	for g := 0; g < 16; g++ {
+		wg.Add(1)
+		go func(g int) {
+			defer wg.Done()
+			<-start
+			for k := 0; k < 3; k++ {
+				in := inputs[(g+k)%len(inputs)]
+				r := res{in: in}
+				if mode != "singularize" {
+					r.p = inflector.Pluralize(in)
+				}
+				if mode != "pluralize" {
+					r.s = inflector.Singularize(in)
+				}
+				out[g] = append(out[g], r)
+			}
+		}(g)
+	}
+	close(start)
+	wg.Wait()
+	bad := 0
+	for _, rs := range out {
+		for _, r := range rs {
+			// "ref-" + word: another cache key, same last word
+			if mode != "singularize" {
+				if want := inflector.Pluralize("ref-" + r.in)[4:]; r.p != want {
+					bad++
+					fmt.Printf("cold-start mismatch: Pluralize(%q)=%q, sequential reference %q\n", r.in, r.p, want)
+				}
+			}
+			if mode != "pluralize" {
+				if want := inflector.Singularize("ref-" + r.in)[4:]; r.s != want {
+					bad++
+					fmt.Printf("cold-start mismatch: Singularize(%q)=%q, sequential reference %q\n", r.in, r.s, want)
+				}
+			}
+		}
+	}
+	if bad > 0 {
+		return 1
+	}
+	return 0
+}
+
 func init() {
+	core.RegisterWorker("c20cold", coldStart)
 	core.RegisterWorker("c20race", func(args []string) int {
 		inputs := []string{"person", "Person", "old person", "box", "quiz", "people", "sheep", "status"}
 		ref := map[string][2]string{}
